@@ -496,7 +496,9 @@ class ConnectionPool(Entity):
                     },
                 },
             )
-            events.append(timeout_event)
+            # Hand the check over now: the warm-up keeps waiting for the remaining
+            # connections, and an event returned at the end could already lie in the past.
+            yield 0.0, [timeout_event]
 
         logger.debug(
             "[%s] Warmup complete: created %d connections",
